@@ -281,6 +281,16 @@ def _r27f(chk) -> None:
                     dropped.add(t.slice.value)
     # the filter itself: overrides = {k: v ... if v is not None}
     has_filter = any(isinstance(x, ast.DictComp) and x.generators and x.generators[0].ifs and "is not None" in norm(x.generators[0].ifs[0]) for x in ast.walk(gc))
+    if not has_filter:
+        # the same filter as a loop: `for k, v in kwargs.items(): if v is not None: overrides[k] = v`
+        from ..idioms import conditions_at as _ca
+
+        gcfg = cfg_of(gc)
+        for l in [l for l in ast.walk(gc) if isinstance(l, ast.For) and "kwargs" in norm(l.iter)]:
+            stores = [st for b in l.body for st in ast.walk(b) if isinstance(st, ast.Assign) and any(isinstance(t, ast.Subscript) for t in st.targets)]
+            if stores and all(any(pol and isinstance(e, ast.Compare) and len(e.ops) == 1 and isinstance(e.ops[0], ast.IsNot) and isinstance(e.comparators[0], ast.Constant) and e.comparators[0].value is None
+                                  for e, pol in _ca(gcfg, st)) for st in stores):
+                has_filter = True
     chk.require(has_filter, "R27f", gc, "get_config no longer filters the command-line values by `is not None` before using them as overrides", detail="get_config: only given options become overrides")
     n = 0
     for c in [c for c in ast.walk(m.tree) if isinstance(c, ast.Call) and isinstance(c.func, ast.Attribute) and c.func.attr == "option" and norm(c.func.value) == "click"]:
